@@ -118,6 +118,11 @@ class Conds:
             if not is_otherwise and vals == [0]:
                 truth = False
             return self._bool_literals(tree0, truth, depth)
+        bits = {"i8": 8, "i16": 16, "i32": 32, "i64": 64, "i128": 128, "isize": 64}.get(dty)
+        if bits:
+            sg = lambda v: v - (1 << bits) if v >= (1 << (bits - 1)) else v
+            vals = [sg(v) for v in vals]
+            listed = [sg(v) for v in listed]
         if is_otherwise:
             return {("int", self._norm(tree0), ("not", frozenset(listed)))}
         return {("int", self._norm(tree0), frozenset(vals))}
@@ -478,3 +483,36 @@ def expand_literals(prog, body, lits, depth=2):
                 level[nl2] = level.get(l, 0) + 1
                 work.append(nl2)
     return out
+
+
+def lit_canon(l, body, positional=False):
+    """line-free rendering of a literal (for comparison with spec tables); positional=True hides parameter names"""
+    if positional:
+        body = df._Positional(body)
+    c = lambda t: df.canon(t, body)
+    if l[0] == "variant":
+        return "%s in {%s}" % (c(l[1]), ",".join(sorted(l[2])))
+    if l[0] == "cmp":
+        return "%s %s %s" % (c(l[2]), l[1], c(l[3]))
+    if l[0] == "bool":
+        return "%s%s" % ("" if l[2] else "!", c(l[1]))
+    if l[0] == "int":
+        v = l[2]
+        if isinstance(v, tuple):
+            return "%s not in {%s}" % (c(l[1]), ",".join(str(x) for x in sorted(v[1])))
+        return "%s in {%s}" % (c(l[1]), ",".join(str(x) for x in sorted(v)))
+    return str(l)
+
+
+def result_rows(prog, body, positional=False):
+    """[(result canonical text, sorted literal texts)] for every definition of the return place"""
+    c = conds(prog, body)
+    nb = df._Positional(body) if positional else body
+    rows = []
+    for (bi, si, d) in c.d.whole.get(0, []):
+        if d[0] == "assign":
+            res = df.canon(c.prov.rvalue_tree(d[1]), nb)
+        else:
+            res = df.canon(c.prov.call_tree(d[1]), nb)
+        rows.append((res, sorted(lit_canon(l, body, positional) for l in c.must_literals(bi))))
+    return sorted(rows)
